@@ -91,8 +91,13 @@ EXTRA_MODULES["C05"] = ["CachedProofs.LayerB.EvictId", "CachedProofs.LayerB.Bije
 EXTRA_MODULES["C08"] = ["CachedProofs.LayerB.Upsert"]                                   # C08 at action granularity
 EXTRA_MODULES["C09"] = EXTRA_MODULES["C09"] + ["CachedProofs.LayerB.Expiry"]            # C09 at action granularity
 EXTRA_MODULES["C10"] = ["CachedProofs.Spec.RefineB"]                                    # sweptLive: what the sweeper may remove under interleaving
-EXTRA_MODULES["C17"] = ["CachedProofs.LayerB.NoPanic"]                                  # C17 at action granularity
+EXTRA_MODULES["C17"] = ["CachedProofs.LayerB.NoPanic", "CachedProofs.LayerB.Closed"]                                  # C17 at action granularity
 EXTRA_MODULES["C16"] = ["CachedProofs.LayerB.StatsTheorems"]                          # C16 at action granularity
+for _pid, _mods in {"C02": ["CachedProofs.LayerB.History"],                          # regularity of reads over histories (call begin / return events)
+                    "C03": ["CachedProofs.LayerB.IndexStep"], "C10": ["CachedProofs.LayerB.IndexStep", "CachedProofs.Extra.Ticks", "CachedProofs.Extra.Small"],
+                    "C13": ["CachedProofs.Extra.Progress"], "C12": ["CachedProofs.Extra.Progress"],   # the worker can always take its next step; the queue drains
+                    "C15": ["CachedProofs.Extra.Small"], "C16": ["CachedProofs.Extra.Small"], "C06": ["CachedProofs.Extra.Small"]}.items():
+    EXTRA_MODULES[_pid] = EXTRA_MODULES.get(_pid, []) + _mods
 
 
 def proof_check(pid, thorough):
